@@ -9,7 +9,15 @@ use cosmwasm_std::{
     coin, to_json_binary, Addr, AllBalanceResponse, Api, BalanceResponse, BankMsg, BankQuery, Binary, Coin, Deps, DepsMut, Empty, Env,
     MessageInfo, QueryRequest, Response, StdResult, SupplyResponse, WasmMsg,
 };
-use cw_multi_test::{App, BankSudo, ContractWrapper, Executor, IntoAddr, SudoMsg};
+use crate::engines::e1_chain::{FlexApi, PlainNames};
+use crate::model::chain::ApiKind;
+use cosmwasm_std::testing::MockStorage;
+use cw_multi_test::{
+    App, AppBuilder, BankKeeper, BankSudo, ContractWrapper, DistributionKeeper, Executor, FailingModule, GovFailingModule, IbcFailingModule, IntoAddr, StakeKeeper, StargateFailing, SudoMsg, WasmKeeper,
+};
+
+/// The default application type, but with a selectable address codec.
+pub type BApp = App<BankKeeper, FlexApi, MockStorage, FailingModule<Empty, Empty, Empty>, WasmKeeper<Empty, Empty>, StakeKeeper, DistributionKeeper, IbcFailingModule, GovFailingModule, StargateFailing>;
 use serde::{Deserialize, Serialize};
 use serde_json::json;
 
@@ -37,6 +45,9 @@ pub enum BOp {
 #[derive(Clone, Debug, Serialize, Deserialize)]
 pub struct Case {
     pub ops: Vec<BOp>,
+    /// the chain uses plain case-sensitive strings as addresses (accounts that differ in letter case only)
+    #[serde(default)]
+    pub plain: bool,
 }
 
 // --- relay contract -------------------------------------------------------------------------
@@ -57,7 +68,7 @@ fn relay_query(_d: Deps, _e: Env, _m: Empty) -> StdResult<Binary> {
 }
 
 pub struct World {
-    pub app: App,
+    pub app: BApp,
     pub users: Vec<String>,
     pub relay: String,
     pub model: Ledger,
@@ -71,8 +82,22 @@ pub const RARE_DENOMS: [&str; 5] = ["ux", "UA", "Ua", "u", "uab"];
 
 impl World {
     pub fn new() -> World {
-        let mut app = App::default();
-        let users: Vec<String> = (0..5).map(|i| format!("user{}", i).into_addr().to_string()).collect();
+        World::new_with(false)
+    }
+
+    pub fn for_case(case: &Case) -> World {
+        World::new_with(case.plain)
+    }
+
+    /// `plain`: addresses are plain case-sensitive strings; the accounts are Alice, alice, ALICE, alic, "alice " and
+    /// the relay contract is Vault (the accounts list has a vault as well).
+    pub fn new_with(plain: bool) -> World {
+        let mut app: BApp = if plain {
+            AppBuilder::new().with_api(FlexApi::of(ApiKind::Plain)).with_wasm(WasmKeeper::new().with_address_generator(PlainNames)).build(|_, _, _| {})
+        } else {
+            AppBuilder::new().with_api(FlexApi::of(ApiKind::Std)).build(|_, _, _| {})
+        };
+        let users: Vec<String> = if plain { ["Alice", "alice", "ALICE", "alic", "alice ", "vault"].iter().map(|s| s.to_string()).collect() } else { (0..5).map(|i| format!("user{}", i).into_addr().to_string()).collect() };
         let code = app.store_code(Box::new(ContractWrapper::new(relay_execute, relay_instantiate, relay_query)));
         let relay = app
             .instantiate_contract(code, Addr::unchecked(users[0].clone()), &Empty {}, &[], "relay", None)
@@ -400,7 +425,11 @@ pub fn gen_op(rng: &mut Rng, w: &World) -> BOp {
 
 /// Generates and runs one history; returns the executed case and the first failure, if any.
 pub fn run_random(rng: &mut Rng, len: usize, rep: &mut Report) -> (Case, Option<(String, String)>) {
-    let mut w = World::new();
+    let plain = rng.chance(1, 8);
+    if plain {
+        rep.bump("c09/histories_with_plain_case_sensitive_addresses");
+    }
+    let mut w = World::new_with(plain);
     let mut ops = vec![];
     // start with some money around
     for u in w.users.clone().iter().take(4) {
@@ -429,14 +458,14 @@ pub fn run_random(rng: &mut Rng, len: usize, rep: &mut Report) -> (Case, Option<
     }
     for op in ops.clone() {
         if let Some(f) = apply(&mut w, &op, rep) {
-            return (Case { ops }, Some(f));
+            return (Case { ops, plain }, Some(f));
         }
     }
     for _ in 0..len {
         let op = gen_op(rng, &w);
         ops.push(op.clone());
         if let Some(f) = apply(&mut w, &op, rep) {
-            return (Case { ops }, Some(f));
+            return (Case { ops, plain }, Some(f));
         }
     }
     let accepted = w.log.iter().filter(|l| l.2).count();
@@ -444,11 +473,11 @@ pub fn run_random(rng: &mut Rng, len: usize, rep: &mut Report) -> (Case, Option<
         // non-trivial: both accepted and rejected operations occurred
         rep.fingerprints.insert(fp_str(&format!("{:?}", w.log)));
     }
-    (Case { ops }, None)
+    (Case { ops, plain }, None)
 }
 
 pub fn run_case(case: &Case, rep: &mut Report) -> Option<(String, String)> {
-    let mut w = World::new();
+    let mut w = World::for_case(case);
     for op in &case.ops {
         if let Some(f) = apply(&mut w, op, rep) {
             return Some(f);
@@ -459,7 +488,13 @@ pub fn run_case(case: &Case, rep: &mut Report) -> Option<(String, String)> {
 
 /// Constructive cases for every (kind x validity class) bucket named in the design.
 pub fn templates() -> Vec<Case> {
-    let w = World::new();
+    let mut all = templates_for(false);
+    all.extend(templates_for(true));
+    all
+}
+
+fn templates_for(plain: bool) -> Vec<Case> {
+    let w = World::new_with(plain);
     let (a, b, r) = (w.users[0].clone(), w.users[1].clone(), w.relay.clone());
     let c = |v: &[(&str, u128)]| -> Coins { v.iter().map(|(d, x)| (d.to_string(), *x)).collect() };
     vec![
@@ -481,6 +516,7 @@ pub fn templates() -> Vec<Case> {
                 BOp::Send { from: b.clone(), to: "staking_module".into(), coins: c(&[("uc", 15)]), via: Via::Execute },
                 BOp::Send { from: b.clone(), to: "staking_module".into(), coins: c(&[("uc", 1)]), via: Via::Execute },
             ],
+            plain,
         },
         Case {
             ops: vec![
@@ -492,6 +528,7 @@ pub fn templates() -> Vec<Case> {
                 BOp::Relay { user: a.clone(), funds: c(&[("ua", 70)]), msgs: vec![RelayMsg::Send { to: r.clone(), coins: c(&[("ua", 71)]) }] },
                 BOp::Relay { user: a.clone(), funds: c(&[("ua", 70)]), msgs: vec![RelayMsg::Send { to: r.clone(), coins: c(&[("ua", 70)]) }, RelayMsg::Send { to: a.clone(), coins: c(&[("ua", 70)]) }] },
             ],
+            plain,
         },
     ]
 }
